@@ -45,6 +45,28 @@ func ZZ_C13_factory() {
 			}
 		}
 	}
+	// ASCII: the first two characters and the last one are arbitrary bytes (any byte values,
+	// so also multi-byte UTF-8 sequences); whether such text is accepted is C12's subject,
+	// here: whatever is accepted has a length field equal to its payload
+	var asciiBytes []byte
+	sevenBit := true
+	if zzTypeNames[ti] == "ascii" {
+		asciiBytes = make([]byte, n)
+		for i := range asciiBytes {
+			asciiBytes[i] = 'x'
+		}
+		if n <= 70000 {
+			for _, p := range []int{0, 1, n - 1} {
+				if p >= 0 && p < n && asciiBytes[p] == 'x' {
+					asciiBytes[p] = rt.Byte(rt.N("c", p))
+					rt.Assume(asciiBytes[p] != 'x')
+					if asciiBytes[p] >= 0x80 {
+						sevenBit = false
+					}
+				}
+			}
+		}
+	}
 	var node ItemNode
 	panicked := rt.Try(func() {
 		switch zzTypeNames[ti] {
@@ -55,11 +77,7 @@ func ZZ_C13_factory() {
 		case "boolean":
 			node = NewBooleanNode(vals...)
 		case "ascii":
-			b := make([]byte, n)
-			for i := range b {
-				b[i] = 'x'
-			}
-			node = NewASCIINode(string(b))
+			node = NewASCIINode(string(asciiBytes))
 		case "i1", "i2", "i4", "i8":
 			node = NewIntNode(w, vals...)
 		case "u1", "u2", "u4", "u8":
@@ -69,9 +87,23 @@ func ZZ_C13_factory() {
 		}
 	})
 	fits := n*w <= 16777215
-	rt.Assert(panicked == !fits, "factory:constructible-iff-within-limit")
+	if sevenBit {
+		rt.Assert(panicked == !fits, "factory:constructible-iff-within-limit")
+	}
 	if !panicked {
 		rt.Assert(node.Size() == n, "factory:size")
+		if zzTypeNames[ti] == "list" && n <= 70000 {
+			// element count in the header, on the first call and again after the caller wrote
+			// into the slice it was given
+			b := node.ToBytes()
+			rt.Assert(len(b) > 0 && zzHeaderOK(b, 0, n), "factory:list-header")
+			total := len(b)
+			for i := 0; i < 4 && i < len(b); i++ {
+				b[i] ^= 0xff
+			}
+			b2 := node.ToBytes()
+			rt.Assert(len(b2) == total && zzHeaderOK(b2, 0, n), "factory:list-header-on-second-call")
+		}
 		if zzTypeNames[ti] != "list" {
 			b := node.ToBytes()
 			rt.Assert(len(b) > 0, "factory:encodes-non-empty")
@@ -84,6 +116,13 @@ func ZZ_C13_factory() {
 			}
 			rt.Assert(len(b) == 1+nlb+n*w, "factory:encoded-length")
 			rt.Assert(zzHeaderOK(b, zzTypeCodes[ti], n*w), "factory:header")
+			if n <= 70000 {
+				for i := 0; i < 4 && i < len(b); i++ {
+					b[i] ^= 0xff
+				}
+				b2 := node.ToBytes()
+				rt.Assert(len(b2) == 1+nlb+n*w && zzHeaderOK(b2, zzTypeCodes[ti], n*w), "factory:header-on-second-call")
+			}
 		}
 	}
 	rt.Reach("end")
